@@ -841,6 +841,12 @@ pub fn execute(scn: &Scenario, ctx: &mut Ctx) {
     let reader_kind = knob.u("reader");
 
     let mut st = Mon {
+        n_framer: 0,
+        n_many: 0,
+        n_strict: 0,
+        n_reject: 0,
+        n_tail: 0,
+        n_local: 0,
         head: 0,
         dead: false,
         framing_lost: corrupted,
@@ -878,6 +884,12 @@ pub fn execute(scn: &Scenario, ctx: &mut Ctx) {
     }
     // reach: records whose every cut point 0..=5+len was a delivery event of this run
     let full_dribble = !segs.is_empty() && segs.iter().all(|&n| n == 1) && segs.len() >= limit;
+    ctx.count("oracle/framer_comparisons", st.n_framer);
+    ctx.count("oracle/many_vs_loop_evaluations", st.n_many);
+    ctx.count("oracle/records_compared_with_sent_log(strict)", st.n_strict);
+    ctx.count("oracle/records_with_certain_rejection", st.n_reject);
+    ctx.count("oracle/records_with_malformed_tail", st.n_tail);
+    ctx.count("oracle/record_locality_reparses", st.n_local);
     ctx.count("records_delivered", st.emitted);
     ctx.count("delivery_events", nev);
     if full_dribble {
@@ -925,6 +937,12 @@ pub fn execute(scn: &Scenario, ctx: &mut Ctx) {
 }
 
 struct Mon {
+    n_framer: u64,
+    n_many: u64,
+    n_strict: u64,
+    n_reject: u64,
+    n_tail: u64,
+    n_local: u64,
     head: usize,
     dead: bool,
     framing_lost: bool,
@@ -943,6 +961,7 @@ fn on_delivery(ctx: &mut Ctx, stream: &[u8], layout: &[RecLayout], scn: &Scenari
     if ctx.on(Prop::C16) || ctx.on(Prop::C01) {
         let mstart = if small { 0 } else { st.head };
         check_many(ctx, &stream[mstart..delivered]);
+        st.n_many += 1;
     }
     let mut first = true;
     loop {
@@ -960,6 +979,7 @@ fn on_delivery(ctx: &mut Ctx, stream: &[u8], layout: &[RecLayout], scn: &Scenari
         let raw = call_raw(ctx, buf);
         let plain = call_plain(ctx, "parse_tls_plaintext", buf, false);
         if ctx.on(Prop::C02) || ctx.on(Prop::C01) {
+            st.n_framer += 3;
             if let Some(r) = &raw {
                 check_framer(ctx, "parse_tls_raw_record", buf, r, trailing);
             }
@@ -1005,6 +1025,7 @@ fn on_delivery(ctx: &mut Ctx, stream: &[u8], layout: &[RecLayout], scn: &Scenari
         }
         // C06 without sender knowledge: b vs b++x
         locality(ctx, stream, st.head, buf, used, &plain, limit);
+        st.n_local += ctx.on(Prop::C06) as u64;
         st.emitted += 1;
         st.head += used;
     }
@@ -1097,6 +1118,11 @@ fn record_oracles(ctx: &mut Ctx, stream: &[u8], scn: &Scenario, l: &RecLayout, b
     match l.x.as_str() {
         "strict" | "tail" if !expected.is_empty() => {
             let is_tail = l.x == "tail" && l.tail_start < l.end;
+            if is_tail {
+                st.n_tail += 1;
+            } else {
+                st.n_strict += 1;
+            }
             for (name, out, msgs) in [("parse_tls_plaintext", one_out, &plain.msgs), ("parse_tls_record_with_header", two_out, &two_msgs)] {
                 if !out.is_ok() {
                     ctx.violate(p, format!("delivery/rejected/{}", l.ctype), || {
@@ -1137,6 +1163,7 @@ fn record_oracles(ctx: &mut Ctx, stream: &[u8], scn: &Scenario, l: &RecLayout, b
             }
         }
         "reject" => {
+            st.n_reject += 1;
             if !one_out.is_rejection() {
                 ctx.violate(p, format!("reject/one-step/{}", l.ctype), || format!("parse_tls_plaintext: record of type {} with a malformed/empty/unknown payload ({} bytes) answered {}", l.ctype, payload.len(), one_out.show()));
             }
